@@ -181,18 +181,32 @@ def check(run):
     # ---------------- R18.4 itemcount
     ic = tool_main(facts, "cdns_itemcount.cpp", "R18.4")
     env = Env(ic["body"])
-    want = {"qr_count": "get_qr_count", "aec_count": "get_aec_count", "mm_count": "get_mm_count"}
+    # after normalisation the block's getters are their container sizes: a count is identified by its container
+    want = {"qr_count": "m_query_responses", "aec_count": "m_address_event_counts", "mm_count": "m_malformed_messages"}
+    getter_of = {"m_query_responses": "get_qr_count", "m_address_event_counts": "get_aec_count", "m_malformed_messages": "get_mm_count"}
+
+    def counted(e):
+        """container whose size the expression is (directly or through the block's getter), else None"""
+        u = unwrap_all_casts(e)
+        sp = ir.size_call_path(u)
+        if sp is not None and sp[-1] in getter_of:
+            return sp[-1]
+        for cont, g_ in getter_of.items():
+            if isinstance(u, dict) and callee_name(u) == g_:
+                return cont
+        return None
     loopw = [n_ for n_ in ir.walk(ic["body"]) if n_.get("k") == "While"]
-    for var, getter in want.items():
+    for var, cont in want.items():
+        getter = getter_of[cont]
         adds = []
         for n_ in ir.walk(ic["body"]):
             if n_.get("k") == "Bin" and n_.get("op") == "+=":
                 p = path(n_["lhs"])
                 if p and p[0].split("#")[0] == "l:%s" % var:
                     adds.append(n_)
-        ok = len(adds) == 1 and callee_name(unwrap_all_casts(adds[0]["rhs"])) == getter
+        ok = len(adds) == 1 and counted(adds[0]["rhs"]) == cont
         run.ob("R18.4", "cdns_itemcount:%s+=%s" % (var, getter), ok, ic, adds[0].get("l", 0) if adds else ic["line"],
-               "total %s accumulates %s() of every block" % (var, getter) if ok else
+               "total %s accumulates the size of %s of every block" % (var, cont) if ok else
                "%s is accumulated from %s" % (var, show(adds[0]["rhs"]) if adds else "nothing"))
         # accumulation happens after the `if (end) break;`
         lw = [l_ for l_ in loopw if adds and any(x is adds[0] for x in ir.walk(l_))]
@@ -203,23 +217,23 @@ def check(run):
             ok2 = bool(idx_end) and bool(idx_add) and idx_end[0] < idx_add[0]
             run.ob("R18.4", "cdns_itemcount:%s:after-end-test" % var, ok2, ic, adds[0].get("l", 0),
                    "only blocks returned before end-of-file are counted" if ok2 else "the empty block returned with end=true is counted too")
-    # the printed totals are those variables; per-block lines print the three getters in the order qr, aec, mm
+    # the printed totals are those variables; per-block lines print the three counts in the order qr, aec, mm
     prints = []
     for st, g, loops_ in ir.guarded_statements(ic["body"], env):
         if st.get("k") in ("IfCond", "LoopHead", "SwitchHead"):
             continue
         txt = show(st)
         if "std::cout" in txt:
-            for var, getter in want.items():
-                if getter in txt:
-                    prints.append((getter, g, st.get("l", 0), txt))
+            for var, cont in want.items():
+                if (cont + ".size()") in txt or getter_of[cont] in txt:
+                    prints.append((var, g, st.get("l", 0), txt))
                 elif var in txt:
                     prints.append((var, g, st.get("l", 0), txt))
     labels_ok = True
     bad = []
     for name, g, line, txt in prints:
-        for lab, names_ in (("Query/Response", ("qr_count", "get_qr_count")), ("Address Event", ("aec_count", "get_aec_count")), ("Malformed", ("mm_count", "get_mm_count"))):
-            if lab in txt and name not in names_:
+        for lab, name_ in (("Query/Response", "qr_count"), ("Address Event", "aec_count"), ("Malformed", "mm_count")):
+            if lab in txt and name != name_:
                 labels_ok = False
                 bad.append((line, lab, name))
     run.ob("R18.4", "cdns_itemcount:labels-match-values", labels_ok and len(prints) >= 12, ic, bad[0][0] if bad else ic["line"],
@@ -229,7 +243,7 @@ def check(run):
     seqs = {}
     for name, g, line, txt in prints:
         seqs.setdefault(show_f(g), []).append(name)
-    order_ok = all([x.replace("get_", "") for x in v] == ["qr_count", "aec_count", "mm_count"] for v in seqs.values())
+    order_ok = all(list(v) == ["qr_count", "aec_count", "mm_count"] for v in seqs.values())
     run.ob("R18.4", "cdns_itemcount:order-qr-aec-mm", order_ok, ic, ic["line"],
            "each output mode prints Q/R, address events, malformed messages in this order" if order_ok else "print order per mode: %s" % list(seqs.values()))
     run.floor("R18.4", 8, "itemcount obligations")
